@@ -202,6 +202,8 @@ def valid_set(name, m, tier, nseeds=None, check_positions=None, kw=None, cap=Non
                 nodes.setdefault(u, 0)
             for u in synth.literal_variants(name, m, sv, limit=12):
                 nodes.setdefault(u, 0)
+            for u in synth.table_range_variants(name, m, sv, limit=48):
+                nodes.setdefault(u, 0)
         except Exception:
             pass
     for u in extra_seeds:
